@@ -98,7 +98,7 @@ fn main() {
                 .map(|p| scen::SrcFile { path: std::path::Path::new(p).file_name().unwrap().to_string_lossy().into_owned(), text: std::fs::read_to_string(p).expect("read") })
                 .collect();
             for annotate in [false, true] {
-                let p = scen::Program { files: files.clone(), annotate, features: vec![], label: "probe".into() };
+                let p = scen::Program { files: files.clone(), annotate, features: vec![], label: "probe".into(), path_mode: String::new() };
                 let seeds: Vec<u64> = (0..n).collect();
                 let res = pool::par_map(&seeds, pool::workers(), |_, &s| {
                     let mut refs = c12::RefCache::new();
@@ -130,7 +130,7 @@ fn main() {
             let seed: u64 = args.get(3).and_then(|v| v.parse().ok()).unwrap_or(1);
             let mut rng = util::Rng::new(seed);
             let fenced = findings::fenced(&findings::load(&std::env::var("VERIF_DIR").unwrap_or_else(|_| "/verif".into())), "C12");
-            let progs: Vec<scen::Program> = (0..n).map(|i| scen::Program { files: gen::generate(&mut rng, &fenced), annotate: i % 2 == 0, features: vec![], label: format!("g{i}") }).collect();
+            let progs: Vec<scen::Program> = (0..n).map(|i| scen::Program { files: gen::generate(&mut rng, &fenced), annotate: i % 2 == 0, features: vec![], label: format!("g{i}"), path_mode: String::new() }).collect();
             let timed = pool::par_map(&progs, 4, |_, p| { let t = std::time::Instant::now(); let r = c12::RefCache::new().get_or_run(p); (r, t.elapsed().as_millis() as u64) });
             let mut ts: Vec<(u64, usize)> = timed.iter().enumerate().map(|(i, (_, t))| (*t, i)).collect();
             ts.sort();
@@ -165,7 +165,7 @@ fn main() {
                 .iter()
                 .map(|p| scen::SrcFile { path: std::path::Path::new(p).file_name().unwrap().to_string_lossy().into_owned(), text: std::fs::read_to_string(p).expect("read") })
                 .collect();
-            let p = scen::Program { files, annotate: true, features: vec![], label: "witness".into() };
+            let p = scen::Program { files, annotate: true, features: vec![], label: "witness".into(), path_mode: String::new() };
             let mut refs = c12::RefCache::new();
             for s in 1..=n {
                 let sc: scen::C12Scenario = serde_json::from_value(serde_json::json!({"property":"C12","seed":0,"index":0,"programs":[p.clone()],"threads":[{"hash_seed":s,"readdir_seed":0}],"cwd":"/","clock":c12::CANON_CLOCK,"pid":c12::CANON_PID,"schedule":[{"jobs":[{"thread":0,"program":0,"measured":true}]}]})).unwrap();
